@@ -150,6 +150,9 @@ def pstmt(st):
         return 'DIM %s(%d)' % (st[1], st[2])
     if k == 'fault' or k == 'fncall':
         return st[1]
+    if k == 'rem':
+        # last statement of a line: the rest of the line is a remark
+        return ("' " if len(st) > 2 and st[2] == "'" else 'REM ') + st[1]
     if k == 'deffn':
         return 'DEF %s(X)=%s' % (st[1], st[2])
     raise ValueError(k)
@@ -157,9 +160,12 @@ def pstmt(st):
 
 def to_basic(prog):
     lines = []
-    for num, stmts in prog['lines']:
-        text = '%d %s' % (num, ':'.join(pstmt(s) for s in stmts))
-        assert len(text) < 250, text
+    # layout options: blanks / a tab between the line number and the first statement, blanks around ':'
+    indents = prog.get('indents')
+    sep = prog.get('sep', ':')
+    for k, (num, stmts) in enumerate(prog['lines']):
+        text = '%d%s%s' % (num, indents[k] if indents else ' ', sep.join(pstmt(s) for s in stmts))
+        assert len(text) < 253, text
         lines.append(text.encode('latin-1'))
     direct = None
     if prog.get('direct'):
@@ -227,7 +233,7 @@ def layout(rng, items, direct=None, dense=None):
         return x
     lines = [[n, resolve(stmts)] for n, stmts in numbered]
     for n, stmts in lines:
-        assert len(':'.join(pstmt(st) for st in stmts)) < 235
+        assert len(':'.join(pstmt(st) for st in stmts)) < 210
     prog = {'lines': lines, 'direct': resolve(direct) if direct else None}
     return prog
 
@@ -377,10 +383,11 @@ class _C19(object):
                 self.feat('if_line_form')
                 self.est += ctx['mult']
                 return
-        then = self.simple(ctx)
+        pre = self.pre_if = []
+        then = self.branch_loop(ctx, pre) if r.random() < 0.18 else self.simple(ctx)
         els = None
         if r.random() < 0.5:
-            els = self.simple(ctx)
+            els = self.branch_loop(ctx, pre) if r.random() < 0.18 else self.simple(ctx)
         # nested IF as the last statement of a branch, in every form (THEN stmts / THEN line / GOTO line),
         # with and without ELSE at every level. An IF that is followed on the line by the ELSE of an
         # enclosing IF must have an ELSE of its own (an ELSE pairs with the nearest unmatched IF).
@@ -388,9 +395,54 @@ class _C19(object):
             then.append(self.nested_if(ctx, 1, need_else=els is not None))
         if els is not None and r.random() < 0.2 and els[-1][0] == 'print':
             els.append(self.nested_if(ctx, 1, need_else=False))
+        out.extend(pre)
         out.append(['if', c, then, els, ''])
         self.feat('if')
         self.est += 2 * ctx['mult']
+
+    def branch_loop(self, ctx, pre):
+        """A whole loop inside an IF branch, its FOR / WHILE standing right after THEN or ELSE."""
+        r = self.rng
+        self.nloop += 1
+        lid = self.nloop
+        budget = max(1, int(30 / max(ctx['mult'], 1)))
+        trips = min(r.choice([0, 1, 2, 2, 3]), budget)
+        inner = dict(ctx)
+        inner['mult'] = ctx['mult'] * max(1, trips)
+        body = []
+        if r.random() < 0.6:
+            names = [v for v in counter_names(ctx['routine'], False) if v not in ctx['used']]
+            if not names:
+                return self.simple(ctx)
+            var = names[-1]         # (the deepest name: the enclosing loops of this routine use the first ones)
+            step = r.choice([1, 1, 2, -1])
+            start = r.randint(-2, 4)
+            stop = start + step * (trips - 1) if trips else start - step * r.randint(1, 2)
+            inner['live'] = ctx['live'] + [var]
+            inner['live_int'] = ctx['live_int'] + [var]
+            self.trace(body, inner)
+            if r.random() < 0.3:
+                self.trace(body, inner)
+            self.feat('for_after_then_or_else')
+            if ctx['live_int']:
+                self.feat('for_after_then_or_else_inside_for')
+            stmts = [['for', var, start, stop, None if step == 1 and r.random() < 0.5 else step, lid]] + body + \
+                    [['next', [lid], [var if r.random() < 0.5 else None]]]
+        else:
+            self.nwhile += 1
+            w = 'W%d%%' % self.nwhile
+            start = r.randint(-1, 2)
+            pre.append(['let', w, start])
+            inner['live'] = ctx['live'] + [w]
+            inner['live_int'] = ctx['live_int'] + [w]
+            body.append(['let', w, ['+', w, 1]])
+            self.trace(body, inner)
+            self.feat('while_after_then_or_else')
+            stmts = [['while', ['<', w, start + trips], lid]] + body + [['wend', lid]]
+        self.est += 3 * inner['mult']
+        if r.random() < 0.5:
+            self.trace(stmts, ctx)
+        return stmts
 
     def nested_if(self, ctx, level, need_else):
         r = self.rng
@@ -405,6 +457,8 @@ class _C19(object):
             self.feat('nested_if_' + style + '_form')
         else:
             then = self.simple(ctx, allow_jump=r.random() < 0.5)
+            if r.random() < 0.12:
+                then = self.branch_loop(ctx, self.pre_if)
             if level < 3 and r.random() < 0.3 and then[-1][0] == 'print':
                 then.append(self.nested_if(ctx, level + 1, need_else=has_else))
         els = None
@@ -762,6 +816,8 @@ class _C19(object):
         items = main + sub_items
         prog = layout(r, items)
         self.features['est_steps'] = int(self.est)
+        prog['indents'] = [r.choice([' ', ' ', ' ', '  ', '    ']) for _ in prog['lines']]
+        prog['sep'] = r.choice([':', ':', ':', ' :', ': ', ' : '])
         prog['features'] = self.features
         prog['mismatch'] = self.mismatch
         prog['oob'] = self.oob
@@ -1056,6 +1112,11 @@ def gen_c21(rng):
                 direct.append(P('d'))
         direct.append(P('d'))
     prog = layout(r, items, direct, dense=r.choice([0.0, 0.5, 0.8, 0.95]))
+    # layout: blanks after the line number and around the colons (the statement pointer must not care)
+    prog['indents'] = [r.choice([' ', ' ', ' ', '  ', '    ']) for _ in prog['lines']]
+    prog['sep'] = r.choice([':', ':', ':', ' :', ': ', ' : ', '  :  '])
+    if prog['sep'] != ':':
+        feats['blanks_around_colons'] = 1
     prog['features'] = feats
     return prog
 
@@ -1134,7 +1195,7 @@ def gen_c22(rng):
     # layout plan: a list of line specs; line numbers assigned first so RESTORE can name any line
     nlines = r.randint(4, 14)
     nums = []
-    n = r.choice([1, 10, 100])
+    n = r.choice([0, 1, 10, 100])
     for _ in range(nlines):
         nums.append(n)
         n += r.choice([1, 5, 10, 10, 10, 37])
@@ -1305,8 +1366,17 @@ def gen_c22(rng):
                 if j not in data:
                     feats['restore_to_line_without_data'] = feats.get('restore_to_line_without_data', 0) + 1
             stmts.append(['print', tag('p'), []])
+        # decoys: the word DATA in a remark or inside a string literal is not a DATA statement
+        decoy = False
+        if i > 0 and r.random() < 0.1:
+            stmts.insert(0, r.choice([['print', 'DATA 7,8', []], ['lets', 'V$', 'x:DATA 5,6']]))
+            feats['decoy_data_in_string'] = feats.get('decoy_data_in_string', 0) + 1
+        if r.random() < 0.15 and i not in open_data:
+            stmts.append(r.choice([['rem', 'DATA 1,2'], ['rem', 'x:DATA 3', "'"], ['rem', 'y DATA 4'], ['rem', ' DATA 9', "'"]]))
+            feats['decoy_data_in_remark'] = feats.get('decoy_data_in_remark', 0) + 1
+            decoy = True
         last = stmts[-1]
-        if last[0] == 'print' and not last[2] and r.random() < 0.3:
+        if not decoy and last[0] == 'print' and not last[2] and r.random() < 0.3:
             # the line ends inside a string literal: the scan for the next DATA has to get over it
             if r.random() < 0.3:
                 stmts.append(['lets', 'V$', 'o' + last[1], 'open'])
@@ -1343,4 +1413,10 @@ def gen_c22(rng):
         lines.append([handler_line, h])
     lines.sort(key=lambda l: l[0])
     prog = {'lines': lines, 'direct': None, 'features': feats}
+    # layout: blanks / tabs between the line number and the first statement, blanks around the colons
+    prog['indents'] = [r.choice([' ', ' ', '  ', '     ', '\t', ' \t ']) for _ in lines]
+    prog['sep'] = r.choice([':', ':', ' :', ': ', ' : ', '  :  '])
+    if lines[0][0] == 0:
+        feats['line_zero'] = 1
+    feats['indented_lines'] = sum(1 for t in prog['indents'] if t != ' ')
     return prog
